@@ -4,7 +4,7 @@
    spec_case : what the implementation did satisfies the property's specification, judged
                directly on the observed values (no model function decides the verdict, except the
                shared parsers of an address / a response scope where noted). *)
-From Sdns Require Export Common.Base Gen.C19 C19.Model.
+From Sdns Require Export Common.Base Common.GoList Gen.C19 C19.Model C19.WireOpt.
 Open Scope N_scope.
 
 Inductive case :=
@@ -30,6 +30,9 @@ Inductive case :=
   (* edns ResponseWriter.WriteWire (byte path): option codes of the OPT record appended to the reply
      (None: no OPT record) *)
 | CaseEdnsWire (noedns cookie nsid keepalive ede : bool) (codes : option (list N))
+  (* edns ResponseWriter.WriteWire, byte for byte: length of the packed body handed in, the facts the
+     layer composes its OPT from (server cookie as observed: a digest), the octets it appended *)
+| CaseEdnsWireBytes (body_len : N) (f : wire_facts) (appended : list N)
   (* a history of client queries through edns + cache against scripted upstream answers *)
 | CaseCache (c : ccfg) (ops : list (cop * obs))
   (* a request tree against seeded shared denial state.  Per node, pre-order: which of the three
@@ -115,6 +118,9 @@ Definition check_case (c : case) : bool :=
   | CaseEdnsBadvers b remote extra counts => list_eqb N.eqb (badvers_reply_counts b remote extra) counts
   | CaseEdnsWire noedns cookie nsid keepalive ede codes =>
       opt_eqb (list_eqb N.eqb) (wire_reply_codes noedns cookie nsid keepalive ede) codes
+  | CaseEdnsWireBytes body_len f appended =>
+      let body := repeat 0 (N.to_nat body_len) in
+      list_eqb N.eqb (append_wire_opt body f) (body ++ appended)
   | CaseCache c ops => check_ops c [] ops
   | CaseDenial b t seen =>
       perms_match (tree_perms (policy_of b) (mk_dctx false false) t) seen
@@ -376,6 +382,13 @@ Definition spec_case (c : case) : bool :=
   | CaseEdnsWire noedns cookie nsid keepalive ede codes =>
       (* no subnet option (code 8), and no OPT at all for a client that sent none *)
       match codes with Some l => negb noedns && forallb (fun x => negb (x =? 8)) l | None => true end
+  | CaseEdnsWireBytes body_len f appended =>
+      (* what was appended is one well-formed OPT record (RFC 6891 reader) advertising the client's
+         DO bit, and none of its options is a client-subnet option *)
+      match read_opt_rr appended with
+      | Some (_, do_, os) => Bool.eqb do_ (wf_do f) && forallb (fun o => negb (fst o =? 8)) os
+      | None => false
+      end
   | CaseCache c ops => spec_ops c [] ops
   | CaseDenial b t seen => negb (root_isolated t) || forallb (fun s => negb (snd s)) seen
   end.
